@@ -126,8 +126,8 @@ def runP (p : P String) (toks : List String) : String :=
 
 /-! life-cycle ops (stateful): the model keeps the whole stored client state and its consensus states
 
-  lc create|toggle|upgrade <timeDelay> <blockDelay> <chainId> <trusting> <contract> <rn> <rh> <headerHash> <root> <time> <innerRn> <innerRh>
-  lc update <good|bad> <rn> <rh> <headerHash> <root> <time>          (good/bad: told by the harness, which built the header)
+  lc create|toggle|upgrade <timeDelay> <blockDelay> <chainId> <trusting> <contract> <rn> <rh> <headerHash> <root> <time> <innerRn> <innerRh> [<parentHash>]
+  lc update <good|bad> <rn> <rh> <headerHash> <root> <time> [<parentHash>]   (parent absent = child of the head; good/bad: told by the harness, which built the header)
       -> ok|rej <dump>       dump = every field of the stored client state + all stored consensus states
   lc verify <c|a> <hRn> <hRh> <src> <dst> <seq> <value> <raw> | <decoded proof> M <mpt table>   -> ok | rej
 -/
@@ -149,18 +149,26 @@ def dumpLife (l : Life.Life) : String :=
   joinWith " " (["eth", toString l.chainId.toNat, toString l.timeDelay.toNat, toString l.cs.blockDelay.toNat,
     toString l.trusting.toNat, hex l.cs.contract, hstr l.cs.head, hex l.headHash, "C", toString cons.length] ++ cons)
 
+/-- optional trailing parent hash (absent: `dflt`) -/
+def pOptHex (dflt : Bytes) : P Bytes := fun toks =>
+  match toks with
+  | [] => some (dflt, [])
+  | t :: r => match unhex t with | some b => some (b, r) | none => none
+
 def pConfig : P Life.Config := do
   let td ← pU64; let bd ← pU64; let chainId ← pU64; let trusting ← pU64; let contract ← pHex
   let rn ← pU64; let rh ← pU64; let hash ← pHex; let root ← pHex; let time ← pU64; let irn ← pU64; let irh ← pU64
+  let parent ← pOptHex []
   pure { contract, chainId, trusting, timeDelay := td, blockDelay := bd, head := ⟨rn, rh⟩, headHash := hash,
-         cons := ⟨time, ⟨irn, irh⟩, root⟩ }
+         cons := ⟨time, ⟨irn, irh⟩, root⟩, parent, root, time }
 
 def pLifeVerify (l : Life.Life) : P String := do
   let k ← pKind
   let hRn ← pU64; let hRh ← pU64
   let src ← pHex; let dst ← pHex; let seq ← pU64; let value ← pHex
   let _raw ← tok
-  expect "|"
+  let t ← tok                       -- optional tag of the generator (which branch the proof is from), then `|`
+  if t ≠ "|" then expect "|"
   let pa ← pProofArg
   expect "M"
   let nm ← pNat; let tbl ← rep pMptEntry nm
@@ -182,12 +190,16 @@ def stepLife (st : St) (toks : List String) : St × String :=
     | some l, some (c, []) => let l' := Life.upgrade l c; (some l', "ok " ++ dumpLife l')
     | _, _ => (st, "bad-op")
   | "update" :: good :: rest =>
-    match st, (do let rn ← pU64; let rh ← pU64; let hash ← pHex; let root ← pHex; let time ← pU64
-                  pure (rn, rh, hash, root, time) : P _) rest with
-    | some l, some ((rn, rh, hash, root, time), []) =>
-      let l' := Life.applyUpd l ⟨good == "good", ⟨rn, rh⟩, hash, root, time⟩
+    match st with
+    | none => (st, "bad-op")
+    | some l =>
+    match (do let rn ← pU64; let rh ← pU64; let hash ← pHex; let root ← pHex; let time ← pU64
+              let parent ← pOptHex l.headHash      -- absent: a child of the head
+              pure (rn, rh, hash, root, time, parent) : P _) rest with
+    | some ((rn, rh, hash, root, time, parent), []) =>
+      let l' := Life.applyUpd l ⟨good == "good", ⟨rn, rh⟩, hash, parent, root, time⟩
       (some l', (if good == "good" then "ok " else "rej ") ++ dumpLife l')
-    | _, _ => (st, "bad-op")
+    | _ => (st, "bad-op")
   | "verify" :: rest =>
     match st with
     | some l => (st, runP (pLifeVerify l) rest)
